@@ -48,6 +48,13 @@ for pkg in sorted(os.listdir(hd)):
         print("harness %-8s %s %.1fs" % (pkg, "ok" if exe else "FAILED", time.time() - t), flush=True)
         if not exe:
             bad += 1 if counts(pkg) else 0
+# the race-detector build used by C18 (cgo)
+if os.path.exists(os.path.join(hd, "c18", "main.go")):
+    t = time.time()
+    exe = c.harness("c18", race=True)
+    print("harness c18-race %s %.1fs" % ("ok" if exe else "FAILED", time.time() - t), flush=True)
+    if not exe:
+        bad += 1 if counts("c18") else 0
 for t in c.ties:
     print("PROBLEM:", t["name"], "\n", str(t["detail"])[-1500:])
 print("setup done in %.1fs, %d problem(s)" % (time.time() - t0, bad))
